@@ -553,8 +553,10 @@ impl<E: Effect, R: CommandReceiver<E>, S: EventSender<E>> Worker<E, R, S> {
         // If no actual results were provided, manually wake up the awaiter
         // notify_result handles this when there are results
         if !has_any_result {
-            // Remove from waiting and add to queue
-            self.executor.mark_active(awaiter);
+            // Remove from waiting and add to queue. Only a select is woken: this answer may be
+            // a late one for a select that already completed through another source, and the
+            // awaiter may by now be parked waiting for a spawn reply.
+            self.executor.wake_selecting(awaiter);
         }
 
         Ok(())
